@@ -2,7 +2,8 @@ SPECIFICATION TSpec
 CONSTANTS
   Transfers = {1, 2, 3}
   Deviation = FALSE
+  LateBegin = FALSE
 CONSTRAINT HWM
-INVARIANTS OwnVerdict NoGoroutineBlocked
+INVARIANTS OwnVerdict NoGoroutineBlocked C03_NoBeginAfterReset C08_NoBeginAfterLogout
 POSTCONDITION TraceAccepted
 CHECK_DEADLOCK FALSE
